@@ -634,6 +634,16 @@ func (x *Exec) feObligation(a, b *FEPoly, id, where string) {
 	if !diff.isZero() {
 		note += " residual: " + x.polyString(diff, 6)
 	}
+	if !diff.isZero() {
+		// the two sides differ as polynomials: one monomial of the residual is a complete refutation (monomials are
+		// free variables: set this one to 1 and the others to 0); the solver is asked about that monomial only, which
+		// keeps a failing identity with thousands of monomials from exhausting its budget
+		ks := diff.keys()
+		k := ks[0]
+		cond := ts.Cmp(OEq, ts.IBin(OIMod, lin(&FEPoly{q: a.q, terms: map[uint32]uint64{k: diff.terms[k]}}), ts.IntU(a.q)), ts.IntI(0))
+		x.addObligation(&Obligation{ID: id, Kind: "assert", Cond: cond, Where: note})
+		return
+	}
 	if len(a.terms)+len(b.terms) > 600 {
 		// very large sides: send only the residual (still a solver query over its monomials)
 		cond := ts.Cmp(OEq, ts.IBin(OIMod, lin(diff), ts.IntU(a.q)), ts.IntI(0))
